@@ -30,23 +30,45 @@ Ev(i, e) == Event(i, e.ts, e.dur, e.d)
 \* ---- the operation record of AwStore that the recorded call denotes ----------------------------
 \* latitude is filled in from the observation: the name of a bucket created without one, the ids of
 \* newly inserted events, the addressed bucket's fate under an out-of-contract id
-NewObs(r) == {x \in SeqToSet(r.st[r.b].evs) : x.id \notin LiveIds(bk, r.b)}
-ToOp(r) ==
+\* latitude is filled in from an observation `ost` (the full state recorded after the call, or after the
+\* batch the call belongs to): the name of a bucket created without one, the ids of newly inserted events,
+\* the addressed bucket's fate under an out-of-contract id
+NewObsIn(r, s, ost) == {x \in SeqToSet(ost[r.b].evs) : x.id \notin LiveIds(s, r.b)}
+ToOpIn(r, s, ost) ==
   CASE r.op = "create"        -> [op |-> "create", b |-> r.b, meta |-> r.meta,
-                                  nm |-> IF r.st[r.b].ex THEN r.st[r.b].name ELSE "?"]
+                                  nm |-> IF r.meta.name # "None" THEN r.meta.name ELSE IF ost[r.b].ex THEN ost[r.b].name ELSE "?"]
     [] r.op = "update"        -> [op |-> "update", b |-> r.b, f |-> r.f]
     [] r.op = "delete_bucket" -> [op |-> "delete_bucket", b |-> r.b]
     [] r.op = "absent"        -> [op |-> "absent", b |-> r.b, kind |-> r.kind, out |-> r.out]
     [] r.op = "insert"        -> [op |-> "insert", b |-> r.b, ev |-> Ev(r.id, r.ev)]
     [] r.op = "bulk"          -> [op |-> "bulk", b |-> r.b,
                                   ups |-> {Ev(it.id, it) : it \in {x \in SeqToSet(r.items) : x.id # -1}},
-                                  news |-> NewObs(r)]
+                                  news |-> NewObsIn(r, s, ost)]
     [] r.op = "replace"       -> [op |-> "replace", b |-> r.b, ev |-> Ev(r.id, r.ev)]
     [] r.op = "replace_last"  -> [op |-> "replace_last", b |-> r.b, ev |-> Ev(r.pre1, r.ev)]
     [] r.op = "delete"        -> [op |-> "delete", b |-> r.b, id |-> r.id]
     [] r.op = "foreign"       -> [op |-> "foreign", b |-> r.b, id |-> r.id,
-                                  post |-> IF r.st[r.b].ex THEN SeqToSet(r.st[r.b].evs) ELSE {}]
+                                  post |-> IF ost[r.b].ex THEN SeqToSet(ost[r.b].evs) ELSE {}]
     [] OTHER                  -> [op |-> "unknown"]
+NewObs(r) == NewObsIn(r, bk, r.st)
+ToOp(r) == ToOpIn(r, bk, r.st)
+
+\* ---- batches: several calls issued without any read in between, then one observation --------------------
+\* (this is where write buffering, handle caches and rollbacks could hide an effect from a later reader)
+OutcomeOK(x) == CASE x.op = "absent" -> x.out = AbsentOutcome(x.kind) [] x.op = "foreign" -> TRUE [] OTHER -> x.out = "ok"
+RECURSIVE FoldOps(_, _, _)
+FoldOps(s, ops, ost) ==
+  IF ops = <<>> THEN [ok |-> TRUE, s |-> s]
+  ELSE LET o == ToOpIn(Head(ops), s, ost)
+       IN IF ~Pre(s, o) THEN [ok |-> FALSE, s |-> s] ELSE FoldOps(Post(s, o), Tail(ops), ost)
+Addressed(r) == {r.ops[i].b : i \in 1..Len(r.ops)}
+BatchClause(r) ==
+  LET f == FoldOps(bk, r.ops, r.st) IN
+  IF \E c \in Buckets \ Addressed(r) : bk[c] # Obs(r)[c] THEN "batch-other-bucket-changed"
+  ELSE IF \E i \in 1..Len(r.ops) : ~OutcomeOK(r.ops[i]) THEN "batch-outcome"
+  ELSE IF ~f.ok THEN "batch-precondition"
+  ELSE IF \E c \in Buckets : f.s[c] # Obs(r)[c] THEN "batch-final-state"
+  ELSE "none"
 
 \* ---- clauses of the step relation, named for diagnosis --------------------------------------------
 \* C04: every bucket other than the addressed one reads back exactly as before (events and metadata)
@@ -88,7 +110,10 @@ CListedAbsent(r) == \A b \in Buckets : ~r.st[b].ex => ~r.st[b].lst.ex
 CInv(r) == IdsUnique(Obs(r)) /\ FrameRel(bk, Obs(r)) /\ CreatedEmptyRel(bk, Obs(r)) /\ CreatedStableRel(bk, Obs(r))
 
 FailClause(r) ==
-  IF ~CFrame(r) THEN "other-bucket-changed"
+  IF r.op = "batch" THEN (IF BatchClause(r) # "none" THEN BatchClause(r)
+                          ELSE IF ~CReads(r) THEN "reads-disagree" ELSE IF ~CListing(r) THEN "listing-disagrees"
+                          ELSE IF ~CListedAbsent(r) THEN "absent-bucket-listed" ELSE IF ~IdsUnique(Obs(r)) THEN "model-invariant" ELSE "none")
+  ELSE IF ~CFrame(r) THEN "other-bucket-changed"
   ELSE IF ~COutcome(r) THEN "outcome"
   ELSE IF ~CPre(r) THEN "precondition"
   ELSE IF ~CTarget(r) THEN "target-bucket-state"
@@ -106,8 +131,8 @@ TInit == tid \in 1..Len(Traces) /\ l = 1 /\ bk = [b \in Buckets |-> None]
 \* A non-conforming record is reported (REJECT) and the judge resynchronises on the observed state, so
 \* that the rest of the trace is still checked.
 TNext == /\ l <= Len(T)
-         /\ IF StepOK(R) THEN Step(ToOp(R)) /\ bk' = Obs(R)
-                         ELSE bk' = Obs(R)
+         /\ IF StepOK(R) /\ R.op # "batch" THEN Step(ToOp(R)) /\ bk' = Obs(R)
+                                             ELSE bk' = Obs(R)
          /\ l' = l + 1 /\ UNCHANGED tid
 TSpec == TInit /\ [][TNext]_tvars
 
